@@ -168,10 +168,6 @@ pub open spec fn hyp<T>(cs: Seq<T>, co: Seq<usize>, rp: Seq<usize>) -> bool {
     &&& cs.len() <= u32::MAX
 }
 pub open spec fn reps_pos(rp: Seq<usize>) -> bool { forall|i: int| 0 <= i < rp.len() ==> #[trigger] rp[i] >= 1 }
-/// no logical row of the box [l0, l1] is entirely default
-pub open spec fn no_blank_row_in<T: Default>(cs: Seq<T>, co: Seq<usize>, rp: Seq<usize>, l0: int, l1: int) -> bool {
-    forall|l: int| l0 <= l <= l1 ==> #[trigger] row_has_nd(cs, co, rp, l)
-}
 pub open spec fn row_has_nd<T: Default>(cs: Seq<T>, co: Seq<usize>, rp: Seq<usize>, l: int) -> bool { exists|c: int| nd(cs, co, rp, l, c) }
 pub open spec fn col_has_nd<T: Default>(cs: Seq<T>, co: Seq<usize>, rp: Seq<usize>, c: int) -> bool { exists|l: int| nd(cs, co, rp, l, c) }
 
@@ -332,7 +328,7 @@ proof fn witness_get_range_requires()
 
 /// the closing argument of get_range: from what the two loops established to the property-level facts
 proof fn lemma_get_range_post<T: Default>(cs: Seq<T>, co: Seq<usize>, rp: Seq<usize>, m: int, x0: int, c0: int, c1: int, fe: int, rmax: int,
-    gm_c: int, gx_c: int, gmin: int, gmax: int, good: bool, bw: int, data: Seq<T>, lo0: int, hi0: int) -> (wit: (int, int, int, int))
+    gm_c: int, gx_c: int, gmin: int, gmax: int, data: Seq<T>, lo0: int, hi0: int) -> (wit: (int, int, int, int))
     requires
         lo0 == m + fe, hi0 == rmax + fe,
         wf_shape(cs, co, rp), hyp(cs, co, rp), 0 <= m, 0 <= x0, 0 <= c0, 0 <= c1, 0 <= fe,
@@ -340,17 +336,15 @@ proof fn lemma_get_range_post<T: Default>(cs: Seq<T>, co: Seq<usize>, rp: Seq<us
         m <= usize::MAX, x0 <= usize::MAX, c0 <= usize::MAX, c1 <= usize::MAX, fe <= usize::MAX,
         rmax == x0 + (rep_sum(rp, x0 + 1) - rep_sum(rp, m)) - (x0 + 1 - m),
         data.len() > 0,
-        good ==> data == ecells(cs, co, rp, c0, c1, rep_sum(rp, m), rep_sum(rp, x0 + 1)),
-        !good ==> c0 > 0 && m < bw < x0 && blank_row(cs, co, bw),
+        data == ecells(cs, co, rp, c0, c1, rep_sum(rp, m), rep_sum(rp, x0 + 1)),
     ensures
         lo0 == rep_sum(rp, m), hi0 == rep_sum(rp, x0 + 1) - 1,
         0 <= lo0 <= hi0 <= u32::MAX, c0 <= c1 <= u32::MAX,
         forall|l: int, c: int| nd(cs, co, rp, l, c) ==> lo0 <= l <= hi0 && c0 <= c <= c1,
         nd(cs, co, rp, lo0, wit.0), nd(cs, co, rp, hi0, wit.1), nd(cs, co, rp, wit.2, c0), nd(cs, co, rp, wit.3, c1),
-        good ==> data.len() == (hi0 - lo0 + 1) * (c1 - c0 + 1)
-            && forall|l: int, c: int| lo0 <= l <= hi0 && c0 <= c <= c1 ==>
-                data[(l - lo0) * (c1 - c0 + 1) + (c - c0)] == lg(cs, co, rp, l, c),
-        (c0 == 0 || no_blank_row_in(cs, co, rp, lo0, hi0)) ==> good,
+        data.len() == (hi0 - lo0 + 1) * (c1 - c0 + 1),
+        forall|l: int, c: int| lo0 <= l <= hi0 && c0 <= c <= c1 ==>
+            data[(l - lo0) * (c1 - c0 + 1) + (c - c0)] == lg(cs, co, rp, l, c),
 {
     let n = co.len() - 1;
     let l0 = rep_sum(rp, m);
@@ -392,22 +386,7 @@ proof fn lemma_get_range_post<T: Default>(cs: Seq<T>, co: Seq<usize>, rp: Seq<us
         lemma_rep_sum_mono(rp, m, ip);
         lemma_rep_sum_mono(rp, ip + 1, x0 + 1);
     }
-    if !good {
-        // the known defect was hit: then the data does not start in column 0 and a blank logical row lies inside the box
-        let lb = rep_sum(rp, bw);
-        lemma_rep_sum_mono(rp, m, bw);
-        lemma_rep_sum_mono(rp, bw + 1, x0 + 1);
-        assert(rep_sum(rp, bw + 1) == lb + rp[bw]); assert(rp[bw] >= 1);
-        assert(in_phys(rp, bw, lb));
-        assert(!row_has_nd(cs, co, rp, lb)) by {
-            if row_has_nd(cs, co, rp, lb) {
-                let c = choose|c: int| nd(cs, co, rp, lb, c);
-                lemma_lg_phys(cs, co, rp, bw, lb, c);
-                assert(nd_at(cs, co, bw, c));
-            }
-        }
-        assert(!no_blank_row_in(cs, co, rp, l0, l1 - 1));
-    } else {
+    {
         lemma_ecells(cs, co, rp, c0, c1, l0, l1);
         let w = c1 + 1 - c0;
         assert(hi0 - lo0 + 1 == l1 - l0);
@@ -420,37 +399,17 @@ proof fn lemma_get_range_post<T: Default>(cs: Seq<T>, co: Seq<usize>, rp: Seq<us
     (gm_c, gx_c, rep_sum(rp, gmin), rep_sum(rp, gmax))
 }
 
-/// the clauses of get_range's contract that are PROVED below, as one predicate over the result (lo, hi, data)
+/// the clauses of get_range's contract (all proved below), as one predicate over the result (lo, hi, data)
 pub open spec fn contract_ok<T: Default>(cs: Seq<T>, co: Seq<usize>, rp: Seq<usize>, lo: (u32, u32), hi: (u32, u32), data: Seq<T>) -> bool {
     &&& (forall|l: int, c: int| !nd(cs, co, rp, l, c)) <==> data.len() == 0
     &&& data.len() == 0 ==> lo == (0u32, 0u32) && hi == (0u32, 0u32)
     &&& forall|l: int, c: int| nd(cs, co, rp, l, c) ==> lo.0 <= l <= hi.0 && lo.1 <= c <= hi.1
     &&& data.len() > 0 ==> row_has_nd(cs, co, rp, lo.0 as int) && row_has_nd(cs, co, rp, hi.0 as int)
             && col_has_nd(cs, co, rp, lo.1 as int) && col_has_nd(cs, co, rp, hi.1 as int)
-    &&& data.len() > 0 && (lo.1 == 0 || no_blank_row_in(cs, co, rp, lo.0 as int, hi.0 as int)) ==>
+    &&& data.len() > 0 ==>
             data.len() == (hi.0 - lo.0 + 1) * (hi.1 - lo.1 + 1)
             && forall|l: int, c: int| lo.0 <= l <= hi.0 && lo.1 <= c <= hi.1 ==>
                 data[(l - lo.0) * (hi.1 - lo.1 + 1) + (c - lo.1)] == lg(cs, co, rp, l, c)
-}
-
-/// C04 AS STATED (no side condition): every range produced under the proved contract is a full rectangle holding the logical grid.
-/// This does NOT follow from the proved contract -- and is false for the real code, see findings/ods.json (interior blank rows are
-/// emitted col_max + 1 cells wide).  The two obligations below are registered as the known finding.
-proof fn c04_unconditional<T: Default>(cs: Seq<T>, co: Seq<usize>, rp: Seq<usize>, lo: (u32, u32), hi: (u32, u32), data: Seq<T>)
-    requires
-        wf_shape(cs, co, rp), hyp(cs, co, rp), contract_ok(cs, co, rp, lo, hi, data), data.len() > 0,
-    ensures
-        //# C04.len_is_h_times_w
-        data.len() == (hi.0 - lo.0 + 1) * (hi.1 - lo.1 + 1),
-        //# C04.placement
-        forall|l: int, c: int| lo.0 <= l <= hi.0 && lo.1 <= c <= hi.1 ==>
-            data[(l - lo.0) * (hi.1 - lo.1 + 1) + (c - lo.1)] == lg(cs, co, rp, l, c),
-{
-}
-
-/// side condition under which the code is proved right: data starts in column 0, or no blank logical row inside the box
-pub open spec fn outside_known_defect<T: Default>(cs: Seq<T>, co: Seq<usize>, rp: Seq<usize>, lo: (u32, u32), hi: (u32, u32)) -> bool {
-    lo.1 == 0 || no_blank_row_in(cs, co, rp, lo.0 as int, hi.0 as int)
 }
 
 /// RUN-LENGTH INDEPENDENCE (corollary of the contract): two encodings (any grouping of rows into repeated elements, any split of
@@ -460,9 +419,8 @@ proof fn lemma_encoding_independent<T: Default>(cs1: Seq<T>, co1: Seq<usize>, rp
     requires
         contract_ok(cs1, co1, rp1, lo1, hi1, d1), contract_ok(cs2, co2, rp2, lo2, hi2, d2),
         forall|l: int, c: int| lg(cs1, co1, rp1, l, c) == lg(cs2, co2, rp2, l, c),
-        outside_known_defect(cs1, co1, rp1, lo1, hi1),
     ensures
-        //# C04.run_length_independent_outside_known_defect
+        //# C04.run_length_independent
         lo1 == lo2 && hi1 == hi2 && d1 =~= d2,
 {
     assert forall|l: int, c: int| nd(cs1, co1, rp1, l, c) == nd(cs2, co2, rp2, l, c) by { }
@@ -482,13 +440,6 @@ proof fn lemma_encoding_independent<T: Default>(cs1: Seq<T>, co1: Seq<usize>, rp
         let e2 = choose|l: int| nd(cs2, co2, rp2, l, lo2.1 as int); assert(nd(cs1, co1, rp1, e2, lo2.1 as int));
         let f2 = choose|l: int| nd(cs2, co2, rp2, l, hi2.1 as int); assert(nd(cs1, co1, rp1, f2, hi2.1 as int));
         assert(lo1 == lo2 && hi1 == hi2);
-        if lo1.1 != 0 {
-            assert forall|l: int| lo2.0 <= l <= hi2.0 implies #[trigger] row_has_nd(cs2, co2, rp2, l) by {
-                assert(row_has_nd(cs1, co1, rp1, l));
-                let c = choose|c: int| nd(cs1, co1, rp1, l, c);
-                assert(nd(cs2, co2, rp2, l, c));
-            }
-        }
         let w = hi1.1 - lo1.1 + 1;
         let h = hi1.0 - lo1.0 + 1;
         assert(d1.len() == d2.len());
@@ -552,13 +503,11 @@ proof fn lemma_encoding_independent<T: Default>(cs1: Seq<T>, co1: Seq<usize>, rp
         hyp(cells@, cols@, rows_repeats@) && r.data().len() > 0 ==> col_has_nd(cells@, cols@, rows_repeats@, r.lo().1 as int),
         //# C04.bbox_tight_right
         hyp(cells@, cols@, rows_repeats@) && r.data().len() > 0 ==> col_has_nd(cells@, cols@, rows_repeats@, r.hi().1 as int),
-        //# C04.len_is_h_times_w_outside_known_defect
-        hyp(cells@, cols@, rows_repeats@) && r.data().len() > 0
-            && (r.lo().1 == 0 || no_blank_row_in(cells@, cols@, rows_repeats@, r.lo().0 as int, r.hi().0 as int)) ==>
+        //# C04.len_is_h_times_w
+        hyp(cells@, cols@, rows_repeats@) && r.data().len() > 0 ==>
             r.data().len() == (r.hi().0 - r.lo().0 + 1) * (r.hi().1 - r.lo().1 + 1),
-        //# C04.placement_outside_known_defect
-        hyp(cells@, cols@, rows_repeats@) && r.data().len() > 0
-            && (r.lo().1 == 0 || no_blank_row_in(cells@, cols@, rows_repeats@, r.lo().0 as int, r.hi().0 as int)) ==>
+        //# C04.placement
+        hyp(cells@, cols@, rows_repeats@) && r.data().len() > 0 ==>
             forall|l: int, c: int| r.lo().0 <= l <= r.hi().0 && r.lo().1 <= c <= r.hi().1 ==>
                 r.data()[(l - r.lo().0) * (r.hi().1 - r.lo().1 + 1) + (c - r.lo().1)] == lg(cells@, cols@, rows_repeats@, l, c),
 //@@ closure 0
@@ -684,8 +633,6 @@ verif_windows_enumerate(cols, 2)
     let ghost total: int = imin(n, m + x0 + 1);
     let ghost mut t: int = m;
     let ghost mut pb: int = m;
-    let ghost mut good: bool = true;
-    let ghost mut bw: int = 0;
     let ghost l0: int = rep_sum(rp, m);
     proof {
         assert(bbox_inv(cs, co, rp, n, Some(row_min), x0, col_min, col_max, first_empty_rows_repeated, gm_c, gx_c, gmin, gmax));
@@ -709,8 +656,7 @@ verif_windows_enumerate(cols, 2)
                 reps_pos(rp) ==> empty_row_repeats == rep_sum(rp, t) - rep_sum(rp, pb) && consecutive_empty_rows == t - pb
                     && row_max == x0 + (rep_sum(rp, pb) - l0) - (pb - m)
                     && (t > m ==> new_cells@.len() > 0)
-                    && (good ==> new_cells@ == ecells(cs, co, rp, col_min as int, col_max as int, l0, rep_sum(rp, pb))),
-                !good ==> col_min > 0 && m < bw < x0 && blank_row(cs, co, bw),
+                    && new_cells@ == ecells(cs, co, rp, col_min as int, col_max as int, l0, rep_sum(rp, pb)),
             ensures
                 t == total,
             decreases total - t,
@@ -750,7 +696,6 @@ verif_windows_enumerate(cols, 2)
                     if reps_pos(rp) {
                         assert(pb < i);
                         assert(pb > m) by { if i == m { } }
-                        if col_min > 0 && good { good = false; bw = pb; }
                     }
                 }
                 let ghost len2 = new_cells@.len();
@@ -762,24 +707,28 @@ verif_windows_enumerate(cols, 2)
                         forall|r: int| pb <= r < i ==> blank_row(cs, co, r),
                         new_cells@.len() >= len2,
                         reps_pos(rp) ==> empty_row_repeats == rep_sum(rp, i) - rep_sum(rp, pb),
-                        reps_pos(rp) && good ==> col_min == 0
-                            && new_cells@ == ecells(cs, co, rp, col_min as int, col_max as int, l0, rep_sum(rp, pb) + it2.index@),
+                        reps_pos(rp) ==>
+                            new_cells@ == ecells(cs, co, rp, col_min as int, col_max as int, l0, rep_sum(rp, pb) + it2.index@),
 //@@ before /new_cells\.extend_from_slice\(/#0of5
                     let ghost v0 = new_cells@;
 //@@ after /new_cells\.extend_from_slice\([^;]*;/#0of5
                     proof {
-                        lemma_extend::<T>(v0, empty_cells@, new_cells@);
-                        if reps_pos(rp) && good {
+                        let sl = empty_cells@.subrange(col_min as int, col_max + 1);
+                        lemma_extend::<T>(v0, sl, new_cells@);
+                        if reps_pos(rp) {
                             let l = rep_sum(rp, pb) + it2.index@;
                             lemma_rep_sum_mono(rp, m, pb);
                             let ip = lemma_find_phys(rp, pb, i, l);
                             assert(blank_row(cs, co, ip));
-                            assert forall|j: int| 0 <= j < col_max + 1 implies #[trigger] erow(cs, co, rp, 0, col_max as int, l)[j] == dflt::<T>() by {
-                                lemma_lg_phys(cs, co, rp, ip, l, j);
-                                assert(!nd_at(cs, co, ip, j));
+                            let er = erow(cs, co, rp, col_min as int, col_max as int, l);
+                            assert(er.len() == sl.len());
+                            assert forall|j: int| 0 <= j < er.len() implies er[j] == sl[j] by {
+                                lemma_lg_phys(cs, co, rp, ip, l, col_min + j);
+                                assert(!nd_at(cs, co, ip, col_min + j));
                             }
-                            assert(empty_cells@ =~= erow(cs, co, rp, 0, col_max as int, l));
-                            assert(ecells(cs, co, rp, 0, col_max as int, l0, l + 1) == ecells(cs, co, rp, 0, col_max as int, l0, l) + erow(cs, co, rp, 0, col_max as int, l));
+                            assert(sl =~= er);
+                            assert(ecells(cs, co, rp, col_min as int, col_max as int, l0, l + 1)
+                                == ecells(cs, co, rp, col_min as int, col_max as int, l0, l) + er);
                         }
                     }
 //@@ before /\n\s*empty_row_repeats = 0;/
@@ -801,7 +750,7 @@ verif_windows_enumerate(cols, 2)
                     row@ == cs.subrange(co[i] as int, co[i + 1] as int), co[i] <= co[i + 1] <= cs.len(),
                     row_repeats == rp[i],
                     new_cells@.len() >= len3, it3.index@ > 0 ==> new_cells@.len() > 0,
-                    reps_pos(rp) && good ==>
+                    reps_pos(rp) ==>
                         new_cells@ == ecells(cs, co, rp, col_min as int, col_max as int, l0, rep_sum(rp, i) + it3.index@),
 //@@ before /match row\.len\(\)\.cmp/
                 let ghost v0 = new_cells@;
@@ -832,7 +781,7 @@ verif_windows_enumerate(cols, 2)
                         if col_min + j < row@.len() { assert(row@[col_min + j] == cs[co[i] + col_min + j]); }
                     }
                     assert(new_cells@ =~= v0 + pe);
-                    if reps_pos(rp) && good {
+                    if reps_pos(rp) {
                         let l = rep_sum(rp, i) + it3.index@;
                         lemma_rep_sum_mono(rp, m, i);
                         assert(rep_sum(rp, i + 1) == rep_sum(rp, i) + rp[i]);
@@ -859,7 +808,7 @@ verif_windows_enumerate(cols, 2)
     proof {
         if hyp(cs, co, rp) {
             wit = lemma_get_range_post(cs, co, rp, m, x0 as int, col_min as int, col_max as int, first_empty_rows_repeated as int, row_max as int,
-                gm_c, gx_c, gmin, gmax, good, bw, cells@, row_min + first_empty_rows_repeated, row_max + first_empty_rows_repeated);
+                gm_c, gx_c, gmin, gmax, cells@, row_min + first_empty_rows_repeated, row_max + first_empty_rows_repeated);
         }
     }
 //@@ before /Range \{\n/
